@@ -310,3 +310,11 @@ def check(model, rep):
                    'last evaluation then report an older evaluation' % (name_, '; '.join('%s is %s' % (k_[:50], v_) for k_, v_ in sorted(pth.facts.items()))[:200] or 'none'),
                    line=pth.ret_line)
     rep.floor('R11.6', 'paths of the statics methods', n_rec, 4)
+    # ---------------------------------------------------------------- R11.7
+    # the leg wrenches that sumActuatorWrenches adds (and the weights carryMassCalc lifts) are built by fsr.makeWrench / Wrench: a force at a
+    # point is [p x f ; f] for EVERY magnitude - the rule function of C12 R12.3, run as a clause of this property
+    from .c12 import Checker as _WrenchChecker
+    from .common_ops import RuleAlias
+    _WrenchChecker(model, RuleAlias(rep, {'R12.3': 'R11.7'})).r123()
+    rep.rules['R11.7'] = ('every leg wrench is a force at a point: makeWrench(position, magnitude, direction) = Wrench(direction * magnitude, position, frame) = [p x f ; f] '
+                          'on every path, whatever the magnitude (rule function shared with C12 R12.3)')
